@@ -1,4 +1,4 @@
-import PallasVerif.Model.ChunkReader
+import PallasVerif.Proofs.ChunkReader
 /-!
 # C43 — Immutable-DB readers report corrupted files as errors
 
@@ -22,14 +22,16 @@ content of the property is carried by:
   `unfixed_allocates_beyond_file_at_witness` — the unrepaired code panics / asks for memory
   unrelated to the file size at concrete corrupted indexes (DESIGN §6 #28 and the second site
   named by the property, `current - start`);
-* `intact_slicing` — on an intact index (offsets = running sums of the block lengths) the chunk
-  reader yields exactly the blocks.
+* `intact_slicing`, `intact_roundtrip` — on an intact index (offsets = running sums of the block
+  lengths) the chunk reader yields exactly the blocks; and byte for byte: a primary index file
+  without empty slots, a secondary index file with one 56-byte entry per block and the chunk file
+  made of the blocks are read back, through all three readers, as exactly the blocks.
 
 Not modelled: OS read errors other than end of file, the `u32` relative-slot counter of the primary
 reader (overflows only on a primary index above 16 GiB), directory-level composition (sampled).
 -/
 namespace PallasVerif.Props.C43
-open PallasVerif.ChunkReader
+open PallasVerif.ChunkReader PallasVerif.Proofs.ChunkReader
 
 variable {β : Type}
 
@@ -308,10 +310,58 @@ theorem intact_slicing (b : List β) (rest : List (List β)) :
   have := chunkItems_intact ([] : List β) b rest
   simpa using this
 
+/-! ## intact files, byte for byte -/
+theorem startsFrom_length {β : Type} (pos : Nat) (bs : List (List β)) : (startsFrom pos bs).length = bs.length := by
+  induction bs generalizing pos with
+  | nil => rfl
+  | cons b t ih => simp [startsFrom, ih]
+
+theorem mem_startsFrom_le {β : Type} (pos : Nat) (bs : List (List β)) (x : Nat) (h : x ∈ startsFrom pos bs) :
+    x ≤ pos + bs.flatten.length := by
+  induction bs generalizing pos with
+  | nil => simp [startsFrom] at h
+  | cons b t ih =>
+    simp only [startsFrom, List.mem_cons] at h
+    simp only [List.flatten_cons, List.length_append]
+    rcases h with e | e
+    · omega
+    · have := ih _ e; omega
+
+/-- An intact chunk — primary index without empty slots, one 56-byte secondary entry per block
+    holding the running sum of the block lengths, chunk file = the blocks one after another — is
+    read back as exactly its blocks, through all three readers. -/
+theorem intact_roundtrip {β : Type} (b : List β) (rest : List (List β))
+    (hidx : 56 * ((b :: rest).length + 1) ≤ 256 ^ 4) (hsz : (b :: rest).flatten.length < 256 ^ 8) :
+    readChunk (primaryBytes (arith 0 ((b :: rest).length + 1)))
+        (secondaryBytes (0 :: (startsFrom 0 (b :: rest)).dropLast)) ((b :: rest).flatten)
+      = some ((b :: rest).map BlockItem.block) := by
+  unfold readChunk secondaryEntries
+  have hp : primaryOffsets (primaryBytes (arith 0 ((b :: rest).length + 1))) = some (arith 0 ((b :: rest).length + 1)) := by
+    apply primaryOffsets_primaryBytes
+    intro o ho
+    have := mem_arith_lt 0 _ o ho
+    omega
+  rw [hp]
+  simp only [Option.map_some, occupied_arith]
+  have hstarts : (0 :: (startsFrom 0 (b :: rest)).dropLast).length = (b :: rest).length := by
+    simp [startsFrom_length]
+  have hb : ∀ o ∈ (0 :: (startsFrom 0 (b :: rest)).dropLast), o < 256 ^ 8 := by
+    intro o ho
+    rcases List.mem_cons.mp ho with e | e
+    · subst e; decide
+    · have := mem_startsFrom_le 0 (b :: rest) o (List.dropLast_subset _ e)
+      omega
+  have hs := secondaryItems_intact [] (0 :: (startsFrom 0 (b :: rest)).dropLast) [] hb
+  simp only [List.nil_append, List.append_nil, List.length_nil, hstarts] at hs
+  rw [hs]
+  exact congrArg some (intact_slicing b rest)
+
 /-! ## Non-vacuity -/
 example : readChunk [1, 0,0,0,0, 0,0,0,56, 0,0,0,112] (List.replicate 56 0 ++ ([0,0,0,0,0,0,0,2] ++ List.replicate 48 0)) [7, 8, 9]
     = some [.block [7, 8], .block [9]] := by decide
 example : readChunk ([] : Bytes) [] [7, 8, 9] = none := by decide
+example : readChunk (primaryBytes (arith 0 3)) (secondaryBytes [0, 2]) [7, 8, 9] = some [.block [7, 8], .block [9]] :=
+  intact_roundtrip [7, 8] [[9]] (by decide) (by decide)
 example : occupied [0, 0, 56, 56, 56, 112] = [0, 56] := by decide
 example : startsFrom 0 [[1, 2], [3], [4, 5, 6]] = [2, 3, 6] := by decide
 
